@@ -5,6 +5,7 @@ import Vuego.Driver.PageOp
 import Vuego.Driver.EntryOp
 import Vuego.Driver.LayoutOp
 import Vuego.Driver.LayoutDataOp
+import Vuego.Driver.LayoutPageOp
 import Vuego.Driver.CacheOp
 import Vuego.Driver.MergeOp
 import Vuego.Driver.FmtOp
@@ -25,6 +26,7 @@ def handle (j : Json) : Json :=
   | "writer" => writerOp j
   | "layout" => layoutOp j
   | "layoutdata" => layoutDataOp j
+  | "layoutpage" => layoutPageOp j
   | "cache" => cacheOp j
   | "merge" => mergeOp j
   | "fmt" => fmtOp j
